@@ -709,3 +709,89 @@ def m_sign(it, st, callee, args, dest_tid, site):
 @model('std::f32::<impl f32>::fract', 'core::f32::<impl f32>::fract', 'std::f64::<impl f64>::fract', doc='x - trunc(x) (std documentation)')
 def m_fract(it, st, callee, args, dest_tid, site):
     return [(st, X.binop('sub', args[0], X.fcall('trunc', [args[0]])))]
+
+# ---- internal iteration: for_each / array::map (behave as the corresponding `for` loop)
+
+def _iterate_closure(it, st, d, f, site, tag, collect_value=False):
+    """run closure f over the items of the described iterator.  Small constant trip counts are
+    unrolled; otherwise one symbolic iteration is summarised exactly like a `for` loop
+    (Interp.enter_loop): quantified store summaries, no loop-carried state allowed."""
+    from .interp import LoopRec, MAX_UNROLL
+    from .resolve import register_range
+    if d is None or d.get('elem') is None:
+        raise Unsupported(f"{tag} over an iterator that is not element-addressable")
+    n = d['n']
+    if n.is_const and n.val <= MAX_UNROLL:
+        states = [(st, [])]
+        for i in range(n.val):
+            nxt = []
+            for s, vals in states:
+                for s2, v in call_closure_any(it, s, f, [d['elem'](s, usz(i))]):
+                    nxt.append((s2, vals + [v]))
+            states = nxt
+            if len(states) > 64:
+                raise Unsupported(f"{tag}: too many paths")
+        return states, None
+    if collect_value:
+        raise Unsupported(f"{tag} with a symbolic trip count")
+    rec = LoopRec((tag, site), None, site[0])
+    rec.iter_desc = d
+    it.rec.loops.append(rec)
+    k = X.fresh(X.USIZE, 'k', 0, None, loop=tag)
+    rec.qvar = (k, usz(0), n)
+    register_range(k, usz(0), n)
+    body = st.clone()
+    body.assume(X.binop('lt', k, n))
+    body.loops = body.loops + (rec,)
+    rec.pre_pc_len = len(st.pc)
+    for o, v in body.heap.items():
+        if isinstance(v, Buf):
+            rec.marks[o] = len(v.stores)
+    start_heap = dict(body.heap)
+    outs = call_closure_any(it, body, f, [d['elem'](body, k)])
+    collected = []
+    for s, _v in outs:
+        rec.paths += 1
+        for o, v in s.heap.items():
+            if isinstance(v, Buf):
+                if o in rec.marks:
+                    for stv in v.stores[rec.marks[o]:]:
+                        collected.append((o, stv, s.pc))
+            elif o in start_heap and v is not start_heap[o] and o in st.heap:
+                # a captured variable changed: loop-carried state, which a single symbolic iteration cannot summarise
+                raise Unsupported(f"{tag}: the closure mutates captured state (obj{o})")
+    ex = st.clone()
+    it.summarise_stores(rec, st, ex, collected)
+    it.check_interference(rec, ex)
+    if rec.paths == 0:
+        ex.assume(X.binop('eq', n, X.const(n.ty, 0)))
+    return None, ex
+
+@model("<std::slice::IterMut<'a, T> as std::iter::Iterator>::for_each", "<std::slice::Iter<'a, T> as std::iter::Iterator>::for_each", 'std::iter::Iterator::for_each',
+       doc='internal iteration: f(item) for every item in order - the `for` loop over the same iterator')
+def m_for_each(it, st, callee, args, dest_tid, site):
+    src, f = args[0], args[1]
+    d = iter_describe(it, st, src)
+    if d is not None and d.get('kind') == 'map':
+        raise Unsupported('for_each over a map adapter')
+    states, ex = _iterate_closure(it, st, d, f, site, 'for_each')
+    if ex is not None:
+        return [(ex, unit(dest_tid))]
+    return [(s, unit(dest_tid)) for s, _ in states]
+
+@model('std::array::<impl [T; N]>::map', doc='[f(a[0]), ..., f(a[N-1])] in index order (N is a small constant: unrolled)')
+def m_array_map(it, st, callee, args, dest_tid, site):
+    arr, f = args[0], args[1]
+    if not (isinstance(arr, Agg) and arr.kind == 'array'):
+        raise Unsupported(f"array::map of {arr!r}")
+    elems = list(arr.fields)
+    states = [(st, [])]
+    for e in elems:
+        nxt = []
+        for s, vals in states:
+            for s2, v in call_closure_any(it, s, f, [e]):
+                nxt.append((s2, vals + [v]))
+        states = nxt
+        if len(states) > 64:
+            raise Unsupported('array::map: too many paths')
+    return [(s, Agg('array', dest_tid, vals)) for s, vals in states]
